@@ -545,8 +545,21 @@ def rule_tables(run, prog):
            f"kind(s) {sorted(set(coll))} are produced by two different tables / collide with a base kind", None)
     # lexer imports exactly these tables
     lm = prog.mod("lexer/lexer.py")
-    ok = all(prog.global_home(lm, n_) is not None and prog.global_home(lm, n_) == prog.global_home(m, n_) for n_ in T)
-    run.ob("R-10.3", "lexer/lexer.py::imports-tables", ok, "the lexer does not use the tables of lexer/dictionary.py", None)
+    def used(n_) -> bool:
+        # the table itself, or a name of dictionary.py that is built from it there (a derived look-up structure)
+        if prog.global_home(lm, n_) is not None and prog.global_home(lm, n_) == prog.global_home(m, n_):
+            return True
+        for local, (src, orig) in lm.imports.items():
+            home = prog.global_home(lm, local)
+            if home is None or home[0] is not m or home[1] == n_:
+                continue
+            builders = [st for st in m.tree.body if any(isinstance(x, ast.Name) and x.id == home[1] for x in ast.walk(st))]
+            if any(isinstance(x, ast.Name) and x.id == n_ for st in builders for x in ast.walk(st)):
+                return True
+        return False
+    missing_t = [n_ for n_ in T if not used(n_)]
+    run.ob("R-10.3", "lexer/lexer.py::imports-tables", not missing_t,
+           f"the lexer does not use the table(s) {missing_t} of lexer/dictionary.py (directly or through a structure built from them there)", None)
 
     run.rule("R-10.4", "TABLE totality (converse): every key of operators / brackets is produced, whole, by parse_operator / "
              "parse_brackets interpreted on that key followed by a blank", floor=2)
@@ -664,3 +677,23 @@ def check(run, prog):
     # a stale cache of anything derived from the cursor shows the sub-parsers a character that is no longer there
     from .c12 import rule_position_caches
     rule_position_caches(run, prog, "R-10.7")
+    rule_identifier_text(run, prog)
+
+
+def rule_identifier_text(run, prog):
+    run.rule("R-10.8", "a value-less token is produced only for the exact spelling its kind stands for: parse_identifier, "
+             "interpreted on every keyword and on its near misses (a letter, digit or underscore(s) added in front or behind, "
+             "the other case, doubled), returns the keyword kind exactly for the key itself and an IDENTIFIER carrying the whole "
+             "spelling otherwise -- two different spellings never collapse into the same token", floor=1)
+    from .c18 import _identifier_membership_observed
+    try:
+        kw = fold_name("keywords", prog.mod("lexer/dictionary.py"))
+    except Unknown as e:
+        raise AnalysisError(f"keywords table does not fold: {e}")
+    pi = prog.method("Lexer", "parse_identifier")
+    run.require(pi is not None, "anchor vanished: Lexer.parse_identifier")
+    ok, why = _identifier_membership_observed(prog, kw)
+    if ok is None:
+        raise Undecided(f"Lexer.parse_identifier is outside the evaluable subset: {why}")
+    run.ob("R-10.8", f"{pi.key}::spelling-kept", ok,
+           f"the characters of an identifier are dropped: {why}: the token stream no longer reproduces the input", pi.node)
